@@ -8,7 +8,7 @@ WT=/tmp/wt-ben-$$
 export GOFLAGS=-mod=mod GOPROXY=off GOSUMDB=off GOTOOLCHAIN=local
 git -C /repo worktree add -q "$WT" HEAD || exit 2
 trap 'git -C /repo worktree remove --force "$WT" >/dev/null 2>&1' EXIT
-(cd $WT && git apply "$DIFF") || { echo "$DIFF: does not apply"; exit 2; }
+(cd $WT && (git apply "$DIFF" 2>/dev/null || git apply --3way "$DIFF" >/dev/null 2>&1)) || { echo "$DIFF: does not apply"; exit 2; }
 S=$(cd $WT && go build ./... 2>&1 && go test -vet=off -count=1 ./... 2>&1 | grep -v "^ok\|no test files")
 if [ -n "$S" ]; then echo "$DIFF: repository suite FAILS with the change"; echo "$S" | head -5; exit 2; fi
 run() { P=$1; R=$(VERIF_REPO=$WT VERIF_TLC_HEAP=5g bin/check $P --tier quick 2>&1); rc=$?; echo "$(basename $DIFF) $P exit=$rc $(echo "$R" | grep 'signature:' | sort | uniq -c | sort -rn | head -3 | tr '\n' ';')"; }
